@@ -24,9 +24,15 @@ namespace sim
     double xmin = 0, xmax = 1, ymin = 0, ymax = 1;
     double max_depth = 600e3;
     std::vector<std::array<double, 2>> coords;
+    std::vector<std::array<double, 2>> surface_points; // points of depth surfaces given as values at points
+    std::vector<double> depth_values;                  // depths named in the file (feature/model ranges, surface values)
     std::vector<std::string> feature_names;
     std::vector<std::string> feature_models;
     size_t n_features = 0;
+    // generated "edge" worlds: a depth surface with a triangle edge along x = edge_c (or y = edge_c)
+    bool edge_world = false;
+    bool edge_vertical = true;
+    double edge_c = 0, edge_lo = 0, edge_hi = 0, edge_depth = 0;
   };
 
   WorldInfo analyse_world(const std::string &name, const std::string &content);
